@@ -1,9 +1,9 @@
-\* routing state machine, every history: 2 threads, 2 runtimes, 3 sinks, 2 entries
+\* routing state machine, every history: 2 threads, 2 runtimes, 3 sinks, 1 entry (MC_gs.cfg: 3 entries)
 CONSTANTS
   Threads = {1, 2}
   Runtimes = {1, 2}
   MaxSinks = 3
-  MaxEntries = 2
+  MaxEntries = 1
 SPECIFICATION Spec
 INVARIANT Inv
 PROPERTY Routed
